@@ -6,6 +6,8 @@ Parquet files, MERGE_SORT_CHUNK_SIZE patched in mokapot.utils) and mokapot.strea
 The oracle does not merge anything: every input row carries a unique id, and the output is checked for
 (1) every id exactly once, (2) every output row equal to the input row of its id, (3) scores monotone in the
 declared direction.  Rejection clause: an input that is not sorted as declared must end in ValueError.
+Near-tie check: the same oracle on ladders of nearly equal scores (1 ulp .. 2**-20 relative apart, tiny / huge /
+negative / around zero): the order is the exact order of the floats, no tolerance.
 """
 import itertools
 import json
@@ -49,15 +51,17 @@ def unsorted_seqs(max_len):
     return out
 
 
-def rows_for(slot, seq, ascending=False):
-    """The rows of input number `slot` holding the score sequence seq (reversed for ascending mode)."""
+def rows_for(slot, seq, ascending=False, vals=None):
+    """The rows of input number `slot` holding the score sequence seq (reversed for ascending mode); seq indexes
+    into vals (best first; default: the three values VALS)."""
+    vals = VALS if vals is None else vals
     idx = list(reversed(seq)) if ascending else list(seq)
-    return [{"id": "s%dr%d" % (slot, j), "score": VALS[v], "k": slot * 100 + j, "t": j % 2 == 0}
+    return [{"id": "s%dr%d" % (slot, j), "score": vals[v], "k": slot * 100 + j, "t": j % 2 == 0}
             for j, v in enumerate(idx)]
 
 
-def frame_for(slot, seq, ascending=False):
-    rows = rows_for(slot, seq, ascending)
+def frame_for(slot, seq, ascending=False, vals=None):
+    rows = rows_for(slot, seq, ascending, vals)
     return pd.DataFrame({c: [r[c] for r in rows] for c in ROW_COLS})
 
 
@@ -69,16 +73,18 @@ def file_for(d, slot, seq, fmt, ascending=False):
     return Path(d) / ("%s%d_%s.%s" % ("a" if ascending else "s", slot, seq_name(seq), fmt))
 
 
-def write_inputs(d, slots, seqs, ascending_slots=0):
+def write_inputs(d, slots, seqs, ascending_slots=0, vals=None, formats=("csv", "parquet")):
     schema = pa.schema([("id", pa.string()), ("score", pa.float64()), ("k", pa.int64()), ("t", pa.bool_())])
     for asc in (False, True):
         for slot in range(ascending_slots if asc else slots):
             for seq in seqs:
-                df = frame_for(slot, seq, asc)
-                df.to_csv(file_for(d, slot, seq, "csv", asc), sep="\t", index=False)
-                # row groups of 2 rows: Parquet batches have to be assembled across row groups
-                pq.write_table(pa.Table.from_pandas(df, preserve_index=False, schema=schema),
-                               file_for(d, slot, seq, "parquet", asc), row_group_size=2)
+                df = frame_for(slot, seq, asc, vals)
+                if "csv" in formats:
+                    df.to_csv(file_for(d, slot, seq, "csv", asc), sep="\t", index=False)
+                if "parquet" in formats:
+                    # row groups of 2 rows: Parquet batches have to be assembled across row groups
+                    pq.write_table(pa.Table.from_pandas(df, preserve_index=False, schema=schema),
+                                   file_for(d, slot, seq, "parquet", asc), row_group_size=2)
 
 
 # ------------------------------------------------------------------------------------------------ oracle
@@ -102,8 +108,9 @@ def _val_eq(got, exp):
     return got == exp
 
 
-def judge(out_rows, inputs, ascending, cols=None):
-    """out_rows: list of dicts; inputs: list of lists of row dicts. -> None or (class, text)"""
+def judge(out_rows, inputs, ascending, cols=None, exact_score=False):
+    """out_rows: list of dicts; inputs: list of lists of row dicts. -> None or (class, text)
+    exact_score: the score of an output row must be the very float of its input row (binary inputs)."""
     cols = list(ROW_COLS if cols is None else cols)
     by_id = {r["id"]: r for rows in inputs for r in rows}
     total = len(by_id)
@@ -118,7 +125,8 @@ def judge(out_rows, inputs, ascending, cols=None):
             return "row-duplicated", "input row %s emitted at positions %d and %d" % (rid, seen[rid], pos)
         seen[rid] = pos
         for c in cols:
-            if not _val_eq(r[c], by_id[rid][c]):
+            if not _val_eq(r[c], by_id[rid][c]) or (exact_score and c == "score"
+                                                     and float(r[c]) != float(by_id[rid][c])):
                 return "row-modified", "row %s column %s: %r, input had %r" % (rid, c, r[c], by_id[rid][c])
     if len(seen) != total:
         missing = sorted(set(by_id) - set(seen))
@@ -136,10 +144,10 @@ def nontrivial(seqs):
 
 
 # ------------------------------------------------------------------------------------------------ (a) merge_sort
-def run_merge_sort(d, seqs, fmt, chunk):
+def run_merge_sort(d, seqs, fmt, chunk, vals=None, exact_score=False):
     import mokapot.utils as mu
     paths = [file_for(d, slot, seq, fmt) for slot, seq in enumerate(seqs)]
-    inputs = [rows_for(slot, seq) for slot, seq in enumerate(seqs)]
+    inputs = [rows_for(slot, seq, False, vals) for slot, seq in enumerate(seqs)]
     old = mu.MERGE_SORT_CHUNK_SIZE
     mu.MERGE_SORT_CHUNK_SIZE = chunk
     try:
@@ -149,7 +157,7 @@ def run_merge_sort(d, seqs, fmt, chunk):
         return "raises-" + type(e).__name__, str(e)[:200]
     finally:
         mu.MERGE_SORT_CHUNK_SIZE = old
-    return judge([dict(r) for r in out], inputs, ascending=False)
+    return judge([dict(r) for r in out], inputs, ascending=False, exact_score=exact_score)
 
 
 def _chunk_sizes(seqs):
@@ -267,13 +275,13 @@ def consume(readers, path, ascending, reader_chunk, cols, total):
     return _frame_to_dicts(m.read(**kw))
 
 
-def make_readers(d, seqs, ascending, kind):
+def make_readers(d, seqs, ascending, kind, vals=None):
     from mokapot.tabular_data import DataFrameReader, CSVFileReader, ParquetFileReader
     readers = []
     for slot, seq in enumerate(seqs):
         k = kind
         if k == "frame":
-            readers.append(DataFrameReader(frame_for(slot, seq, ascending)))
+            readers.append(DataFrameReader(frame_for(slot, seq, ascending, vals)))
         elif k == "csv":
             readers.append(CSVFileReader(file_for(d, slot, seq, "csv", ascending)))
         else:
@@ -281,16 +289,16 @@ def make_readers(d, seqs, ascending, kind):
     return readers
 
 
-def run_table_merge(d, seqs, ascending, kind, path, reader_chunk, cols):
-    inputs = [rows_for(slot, seq, ascending) for slot, seq in enumerate(seqs)]
+def run_table_merge(d, seqs, ascending, kind, path, reader_chunk, cols, vals=None, exact_score=False):
+    inputs = [rows_for(slot, seq, ascending, vals) for slot, seq in enumerate(seqs)]
     total = sum(len(r) for r in inputs)
     try:
-        readers = make_readers(d, seqs, ascending, kind)
+        readers = make_readers(d, seqs, ascending, kind, vals)
         out = consume(readers, path, ascending, reader_chunk, cols, total)
     except Exception as e:                                            # noqa: BLE001
         return "raises-" + type(e).__name__, str(e)[:200]
     want_cols = cols if (cols is not None and path != "merge_readers") else None
-    return judge(out, inputs, ascending, want_cols)
+    return judge(out, inputs, ascending, want_cols, exact_score)
 
 
 def table_merge_combos(tier, seed):
@@ -454,6 +462,153 @@ def _rejection_task(items):
     return ev.events
 
 
+# ------------------------------------------------------------------------------------------------ (c) near-ties
+# Score ladders whose neighbouring values are almost, but not exactly, equal.  "Sorted" in the property is the
+# exact order of the floats: a merge that treats near-equal head scores of two inputs as a tie (any relative or
+# absolute tolerance) emits the smaller one first when the larger one stands in a later input.
+TEXT_MAX_K = 44      # text files only for ladders whose neighbours differ by >= 2**-44 relative (see assumptions)
+
+
+def _ladder(values):
+    vals = tuple(sorted({float(v) for v in values}, reverse=True))
+    assert len(vals) == len(values) and all(math.isfinite(v) for v in vals), values
+    return vals
+
+
+def _rel_ladder(x, k):
+    """x, x*(1+2**-k), x*(1+2*2**-k): neighbours differ by about 2**-k relative (k <= 52: all distinct)"""
+    return _ladder([x, x * (1.0 + 2.0 ** -k), x * (1.0 + 2.0 * 2.0 ** -k)])
+
+
+def _ulp_ladder(x, towards=-np.inf):
+    """x and its two next neighbouring floats in the direction `towards` (default: the next smaller ones)"""
+    y = float(np.nextafter(x, towards))
+    return _ladder([x, y, float(np.nextafter(y, towards))])
+
+
+def near_tie_families(tier):
+    """-> [(name, ladder of 3 distinct values best first, text files allowed?)]"""
+    big = float(np.finfo(np.float64).max)
+    fams = [
+        ("ulp@0.75", _ulp_ladder(0.75), False),
+        ("ulp@-1e-5", _ulp_ladder(-1e-5), False),
+        ("ulp@max", _ulp_ladder(big), False),
+        ("subnormal", _ladder([1e-323, 5e-324, 0.0]), False),
+        ("zero+-1e-12", _ladder([1e-12, 0.0, -1e-12]), True),
+        ("rel2^-30@0.75", _rel_ladder(0.75, 30), True),
+        ("rel2^-33@-0.75", _rel_ladder(-0.75, 33), True),
+        ("rel2^-40@1e300", _rel_ladder(1e300, 40), True),
+        ("rel2^-44@1e-300", _rel_ladder(1e-300, 44), True),
+        ("rel2^-51@12345.678", _rel_ladder(12345.678, 51), False),
+        ("mixed-far-above,2^-36@0.5", _ladder([2.5, 0.5 * (1 + 2.0 ** -36), 0.5]), True),
+        ("mixed-2^-47@0.5,far-below", _ladder([0.5 * (1 + 2.0 ** -47), 0.5, -1.0]), False),
+    ]
+    if tier != "quick":
+        mags = (0.75, -0.75, 1e-300, -1e300, 12345.678, -3e-7)
+        for k in range(20, 53):
+            x = mags[k % len(mags)]
+            fams.append(("rel2^-%d@%r" % (k, x), _rel_ladder(x, k), k <= TEXT_MAX_K and not 1e-5 <= abs(x) < 0.1))
+        for x in (1.0, -1.0, 1e-300, -1e300, 2.2250738585072014e-308, 1 / 3, 1e-5):
+            fams.append(("ulp@%r" % x, _ulp_ladder(x), False))
+        fams.append(("ulp@-max", _ulp_ladder(-big, np.inf), False))
+        fams.append(("zero+-5e-324", _ladder([5e-324, 0.0, -5e-324]), False))
+        fams.append(("zero+-1e-300", _ladder([1e-300, 0.0, -1e-300]), True))
+    names = [n for n, _, _ in fams]
+    return [f for j, f in enumerate(fams) if f[0] not in names[:j]]
+
+
+def _ladder_seqs(max_len):
+    return [s for ln in range(1, max_len + 1) for s in itertools.combinations_with_replacement(range(3), ln)]
+
+
+def near_tie_combos(tier, seed, fam_no):
+    rng = random.Random(1000 * seed + fam_no)
+    max_len, n_rnd = (2, 12) if tier == "quick" else (3, 60)
+    full = _ladder_seqs(max_len)
+    combos = list(itertools.product(full, repeat=2))
+    combos += list(itertools.product(_ladder_seqs(1), repeat=3))
+    combos += [tuple(rng.choice(full) for _ in range(3 + q % 2)) for q in range(n_rnd)]
+    return full, combos
+
+
+def run_near_tie(d, inp, vals):
+    """One evaluation of the near-tie check; inp is the recorded input of the case."""
+    seqs = tuple(tuple(s) for s in inp["seqs"])
+    if inp["impl"] == "merge_sort":
+        return run_merge_sort(d, seqs, inp["format"], inp["chunk"], vals, exact_score=inp["format"] == "parquet")
+    return run_table_merge(d, seqs, inp["ascending"], inp["kind"], inp["path"], inp["reader_chunk"],
+                           inp["columns"], vals, exact_score=inp["kind"] != "csv")
+
+
+def _near_tie_task(task):
+    d, fam_no, name, vals, text_ok, combos, full, one_direction = task
+    d = Path(d) / ("fam%d" % fam_no)
+    d.mkdir()
+    formats = ("parquet", "csv") if text_ok else ("parquet",)
+    write_inputs(d, 4, full, ascending_slots=4, vals=vals, formats=formats)
+    kinds = ("frame", "parquet", "csv") if text_ok else ("frame", "parquet")
+    ev = _Events()
+    for j, seqs in enumerate(combos):
+        sizes = _chunk_sizes(seqs)
+        nt = nontrivial(seqs)
+        tag = {"family": name, "vals_hex": [v.hex() for v in vals], "vals": list(vals),
+               "seqs": [list(s) for s in seqs]}
+        fmt = formats[j % len(formats)]
+        runs = [dict(tag, impl="merge_sort", format=fmt, chunk=sizes[(j // 2) % len(sizes)])]
+        # quick: one direction per combination, changing every 8 combinations (8 consecutive combinations cover
+        # the 8 access paths); thorough: both directions
+        for ascending in (((j // 8) % 2 == 1,) if one_direction else (False, True)):
+            path, rc, cols = _variants(j + int(ascending and not one_direction), seqs, 1)[0]
+            runs.append(dict(tag, impl="table", kind=kinds[(j // 3) % len(kinds)], ascending=ascending, path=path,
+                             reader_chunk=rc, columns=cols))
+        for inp in runs:
+            ev.case(("near-tie", name, json.dumps(inp, sort_keys=True)), nontrivial=nt)
+            bad = run_near_tie(d, inp, vals)
+            if bad:
+                if inp["impl"] == "merge_sort":
+                    ev.violation("near-tie-merge_sort-%s-%s" % (inp["format"], bad[0]),
+                                 "ladder %s %r: %s" % (name, list(vals), bad[1]), inp)
+                else:
+                    ev.violation("near-tie-table-merger-%s-%s" % ("asc" if inp["ascending"] else "desc", bad[0]),
+                                 "ladder %s %r, %s via %s: %s" % (name, list(vals), inp["kind"], inp["path"], bad[1]),
+                                 inp)
+    return ev.events
+
+
+def check_near_ties(tier, seed):
+    fams = near_tie_families(tier)
+    quick = tier == "quick"
+    ck = Check("merge_near_ties_exact_order",
+               "mokapot.utils.merge_sort (get_next_row), mokapot.streaming.MergedTabularDataReader / merge_readers",
+               "%d score ladders of 3 distinct, nearly equal values (neighbouring floats from np.nextafter at 0.75, "
+               "-1e-5, the largest float%s; subnormals; 0 and +-1e-12%s; relative steps 2**-k %s at magnitudes from "
+               "1e-300 to 1e300 and of both signs; a near-tie pair next to a far-away value); for every ladder: "
+               "exhaustive ordered pairs of inputs of 1..%d rows (%d: every exact-tie / near-tie structure, the "
+               "larger value of a near-tie in the earlier and in the later input), the 27 triples of 1-row inputs, "
+               "%d random (random.Random(1000*%d + ladder number)) 3- and 4-tuples of inputs of 1..%d rows; each "
+               "combination: merge_sort once (Parquet, alternating with text for ladders with steps >= 2**-%d; "
+               "MERGE_SORT_CHUNK_SIZE rotating over {1, 2, longest input + 1}) and the table merger %s "
+               "(frame / Parquet / text readers, access path, reader_chunk_size and column request "
+               "rotating with the combination number)"
+               % (len(fams), "" if quick else " and 8 more magnitudes", "" if quick else " / 5e-324 / 1e-300",
+                  "for k in {30, 33, 40, 44, 51}" if quick else "for every k in 20..52",
+                  2 if quick else 3, len(_ladder_seqs(2 if quick else 3)) ** 2, 12 if quick else 60, seed,
+                  2 if quick else 3, TEXT_MAX_K,
+                  "once (descending or ascending, the direction changing every 8 combinations)" if quick
+                  else "descending and ascending"),
+               "oracle: as in the other checks (every id once, rows unmodified, scores monotone), the order being "
+               "the exact comparison of the floats (no tolerance); for frame and Parquet inputs the output score "
+               "must be the identical float of the input row; non-trivial = at least 2 inputs and at least 2 "
+               "distinct score values")
+    with scratch("c14c_") as d:
+        tasks = []
+        for fam_no, (name, vals, text_ok) in enumerate(fams):
+            full, combos = near_tie_combos(tier, seed, fam_no)
+            tasks.append((str(d), fam_no, name, vals, text_ok, combos, full, quick))
+        _run_tasks(ck, _near_tie_task, tasks)
+    return ck
+
+
 # ------------------------------------------------------------------------------------------------ plumbing
 class _Events:
     """Recorder with the interface of Check, so that worker processes can report back."""
@@ -508,6 +663,12 @@ def REPLAY(check_name, violation):
                             inp["ascending"], inp["path"], inp["reader_chunk"])
         return {"violated": bool(bad), "detail": bad}
     seqs = tuple(tuple(s) for s in inp["seqs"])
+    if "vals_hex" in inp:                                  # near-tie check: the ladder travels with the case
+        vals = tuple(float.fromhex(h) for h in inp["vals_hex"])
+        with scratch("c14p_") as d:
+            write_inputs(d, len(seqs), sorted(set(seqs)), ascending_slots=len(seqs), vals=vals)
+            bad = run_near_tie(d, inp, vals)
+        return {"violated": bool(bad), "detail": bad}
     with scratch("c14p_") as d:
         write_inputs(d, len(seqs), sorted(set(seqs)), ascending_slots=len(seqs))
         if impl == "merge_sort":
@@ -537,9 +698,15 @@ if __name__ == "__main__":
     a = args()
     np.random.seed(a.seed)
     emit(_timed([(check_merge_sort, a.tier, a.seed), (check_table_merger, a.tier, a.seed),
-                 (check_rejection, a.tier, a.seed)]),
+                 (check_rejection, a.tier, a.seed), (check_near_ties, a.tier, a.seed)]),
          ["inputs are non-empty, finite scores, sorted as declared (except in the rejection check); three score "
-          "values generate every tie pattern but not every spacing of scores",
+          "values generate every tie pattern but not every spacing of scores (the near-tie check adds ladders of "
+          "3 nearly equal values: spacings from 1 ulp to 2**-20 relative, not every spacing)",
+          "near-tie ladders go through text files only when neighbouring values differ by at least 2**-44 relative "
+          "and are not of a magnitude in [1e-5, 0.1): the pandas text parser used by the readers is not round-trip "
+          "exact in this environment (up to 3 ulp; about 1e-12 relative for values written with leading zeros "
+          "after the decimal point), so closer values could change their order by parsing alone; for text inputs rows are compared with relative tolerance 1e-12 and the "
+          "order is judged on the emitted values",
           "merge_sort is only specified for descending order; the rejection clause concerns the table merger only",
           "the numbers of inputs above 2 (quick) are covered exhaustively only for short inputs, otherwise by "
           "seeded random sampling (see the bound of each check)"])
